@@ -45,6 +45,9 @@ func (w *World) supersede(kind string, acct, browser int, to string) {
 
 func (w *World) revokeAll(kind string, acct int) {
 	for _, s := range w.KB.Secrets {
+		if kind == "rm" && s.Kind == kind && s.Acct == acct {
+			s.BeforeChange = true
+		}
 		if s.Kind == kind && s.Acct == acct && (s.Status == "valid" || s.Status == "maybe") {
 			s.Status = "revoked"
 		}
